@@ -284,3 +284,384 @@ Section Generic.
     - rewrite N, nth_repeat_same. reflexivity.
   Qed.
 End Generic.
+
+(* ========================================================================== *)
+(** * Part C — every string of the documented language is accepted *)
+
+(* what a variable letter must not be (follows from [USane] for alphabetic letters) *)
+Definition okv (v : N) : Prop :=
+  is_ascii_digit v = false /\ v <> c_dot /\ v <> c_caret /\ v <> c_plus /\ v <> c_minus.
+
+Lemma usane_okv U v : USane U -> u_alphabetic U v = true -> okv v.
+Proof.
+  intros HU Hv. unfold okv. repeat split.
+  - destruct (is_ascii_digit v) eqn:E; [|reflexivity]. rewrite (us_digit U HU v E) in Hv. discriminate.
+  - intros ->. rewrite (us_dot U HU) in Hv. discriminate.
+  - intros ->. rewrite (us_caret U HU) in Hv. discriminate.
+  - intros ->. rewrite (us_plus U HU) in Hv. discriminate.
+  - intros ->. rewrite (us_minus U HU) in Hv. discriminate.
+Qed.
+
+Lemma digit_not c : is_ascii_digit c = true -> c <> c_dot /\ c <> c_caret /\ c <> c_plus /\ c <> c_minus.
+Proof.
+  unfold is_ascii_digit, c_dot, c_caret, c_plus, c_minus. rewrite andb_true_iff, !N.leb_le. lia.
+Qed.
+
+(* the text of one signed term as the parser sees it after "-" -> "+-" and the split on '+' *)
+Definition sign_str (neg : bool) : str := if neg then [c_minus] else [].
+Definition part (v : N) (nt : bool * uterm) : str :=
+  sign_str (fst nt) ++ render_term v (snd nt).
+
+(* "-" -> "+-" *)
+Lemma m2pm_app a b : minus_to_plusminus (a ++ b) = minus_to_plusminus a ++ minus_to_plusminus b.
+Proof. unfold minus_to_plusminus. apply flat_map_app. Qed.
+
+Lemma m2pm_cons_minus s : minus_to_plusminus (c_minus :: s) = c_plus :: c_minus :: minus_to_plusminus s.
+Proof. reflexivity. Qed.
+
+Lemma m2pm_cons_other c s : c <> c_minus -> minus_to_plusminus (c :: s) = c :: minus_to_plusminus s.
+Proof.
+  intros H. unfold minus_to_plusminus. cbn [flat_map].
+  destruct (N.eqb_spec c c_minus) as [E|_]; [contradiction|reflexivity].
+Qed.
+
+Lemma m2pm_id s : ~ In c_minus s -> minus_to_plusminus s = s.
+Proof.
+  induction s as [|c s IH]; intros H; [reflexivity|].
+  rewrite m2pm_cons_other by (intros ->; apply H; left; reflexivity).
+  rewrite IH by (intros K; apply H; right; exact K). reflexivity.
+Qed.
+
+Lemma m2pm_head_not_minus s r : minus_to_plusminus s <> c_minus :: r.
+Proof.
+  destruct s as [|c s]; [discriminate|].
+  destruct (N.eq_dec c c_minus) as [->|Hn].
+  - rewrite m2pm_cons_minus. discriminate.
+  - rewrite m2pm_cons_other by exact Hn. intros H; injection H as H _. contradiction.
+Qed.
+
+Lemma m2pm_inj a : forall b, minus_to_plusminus a = minus_to_plusminus b -> a = b.
+Proof.
+  induction a as [|x a IH]; intros [|y b] H.
+  - reflexivity.
+  - exfalso. destruct (N.eq_dec y c_minus) as [->|Hn];
+      [rewrite m2pm_cons_minus in H|rewrite m2pm_cons_other in H by exact Hn]; discriminate.
+  - exfalso. destruct (N.eq_dec x c_minus) as [->|Hn];
+      [rewrite m2pm_cons_minus in H|rewrite m2pm_cons_other in H by exact Hn]; discriminate.
+  - destruct (N.eq_dec x c_minus) as [->|Hx], (N.eq_dec y c_minus) as [->|Hy].
+    + rewrite !m2pm_cons_minus in H. injection H as H. rewrite (IH b H). reflexivity.
+    + rewrite m2pm_cons_minus, m2pm_cons_other in H by exact Hy. injection H as _ H.
+      exfalso. exact (m2pm_head_not_minus b _ (eq_sym H)).
+    + rewrite m2pm_cons_minus, m2pm_cons_other in H by exact Hx. injection H as _ H.
+      exfalso. exact (m2pm_head_not_minus a _ H).
+    + rewrite !m2pm_cons_other in H by assumption. injection H as -> H. rewrite (IH b H). reflexivity.
+Qed.
+
+(* ---- characters of renderings ---- *)
+Lemma render_dec_chars d c : wf_dec d = true -> In c (render_dec d) -> is_ascii_digit c = true \/ c = c_dot.
+Proof.
+  destruct d as [ip [f|]]; unfold wf_dec, render_dec; cbn [d_int d_frac]; intros H Hin;
+    apply andb_true_iff in H; destruct H as [Hi H]; apply in_app_iff in Hin.
+  - apply andb_true_iff in H. destruct H as [Hf _].
+    destruct Hin as [K|[K|K]]; [left; exact (all_digits_in _ _ Hi K)|right; symmetry; exact K|left; exact (all_digits_in _ _ Hf K)].
+  - destruct Hin as [K|[]]. left; exact (all_digits_in _ _ Hi K).
+Qed.
+
+Lemma render_dec_nonempty d : wf_dec d = true -> render_dec d <> [].
+Proof.
+  destruct d as [ip [f|]]; unfold wf_dec, render_dec; cbn [d_int d_frac]; intros H.
+  - destruct ip; discriminate.
+  - destruct ip; [|discriminate]. cbn in H. discriminate.
+Qed.
+
+Lemma render_term_chars v t c : wf_term t = true -> In c (render_term v t) ->
+  is_ascii_digit c = true \/ c = c_dot \/ c = c_caret \/ (c = v /\ is_var t = true).
+Proof.
+  destruct t as [d|co e]; cbn [wf_term render_term is_var]; intros H Hin.
+  - destruct (render_dec_chars d c H Hin) as [K|K]; auto.
+  - apply andb_true_iff in H. destruct H as [Hc He].
+    apply in_app_iff in Hin. destruct Hin as [K|K].
+    + destruct co as [d|]; [|destruct K]. destruct (render_dec_chars d c Hc K); auto.
+    + cbn [app] in K. destruct K as [K|K]; [right; right; right; auto|].
+      destruct e as [ds|]; [|destruct K]. destruct K as [K|K]; [right; right; left; auto|].
+      unfold wf_exp in He. apply andb_true_iff in He. destruct He as [He _].
+      apply andb_true_iff in He. destruct He as [_ He]. left. exact (all_digits_in _ _ He K).
+Qed.
+
+Lemma render_term_nonempty v t : wf_term t = true -> render_term v t <> [].
+Proof.
+  destruct t as [d|co e]; cbn [wf_term render_term]; intros H; [exact (render_dec_nonempty d H)|].
+  intros K. apply app_eq_nil in K. destruct K as [_ K]. discriminate.
+Qed.
+
+Lemma render_term_no_sign v t c : wf_term t = true -> (is_var t = true -> okv v) ->
+  c = c_plus \/ c = c_minus -> ~ In c (render_term v t).
+Proof.
+  intros Hw Hv Hc Hin.
+  assert (Hd : is_ascii_digit c = false) by (destruct Hc as [->| ->]; reflexivity).
+  destruct (render_term_chars v t c Hw Hin) as [K|[K|[K|[K Kv]]]].
+  - rewrite K in Hd; discriminate.
+  - destruct Hc as [->| ->]; discriminate.
+  - destruct Hc as [->| ->]; discriminate.
+  - subst c. destruct (Hv Kv) as (_ & _ & _ & Hp & Hm). destruct Hc; contradiction.
+Qed.
+
+Lemma part_no_plus v nt : wf_term (snd nt) = true -> (is_var (snd nt) = true -> okv v) -> ~ In c_plus (part v nt).
+Proof.
+  intros Hw Hv Hin. unfold part in Hin. apply in_app_iff in Hin. destruct Hin as [K|K].
+  - destruct (fst nt); [|destruct K]. destruct K as [K|[]]. discriminate K.
+  - exact (render_term_no_sign v _ c_plus Hw Hv (or_introl eq_refl) K).
+Qed.
+
+Lemma bad_part_part v nt : wf_term (snd nt) = true -> (is_var (snd nt) = true -> okv v) -> bad_part (part v nt) = false.
+Proof.
+  intros Hw Hv. unfold part, sign_str.
+  pose proof (render_term_nonempty v _ Hw) as Hne.
+  pose proof (render_term_no_sign v _ c_minus Hw Hv (or_intror eq_refl)) as Hm.
+  destruct (render_term v (snd nt)) as [|c [|c2 r]]; [contradiction| |]; destruct (fst nt); cbn [app bad_part]; try reflexivity.
+  apply N.eqb_neq. intros ->. apply Hm. left; reflexivity.
+Qed.
+
+(* ---- normal form of a rendering after "-" -> "+-" ---- *)
+Lemma m2pm_rest v rest :
+  (forall nt, In nt rest -> ~ In c_minus (render_term v (snd nt))) ->
+  minus_to_plusminus (flat_map (fun nt => sign_char (fst nt) :: render_term v (snd nt)) rest)
+  = flat_map (fun q => c_plus :: q) (map (part v) rest).
+Proof.
+  induction rest as [|[neg t] rest IH]; intros H; [reflexivity|].
+  cbn [flat_map map]. rewrite m2pm_app, IH by (intros nt K; apply H; right; exact K).
+  f_equal. unfold part. cbn [fst snd].
+  pose proof (H (neg, t) (or_introl eq_refl)) as Hm. cbn [snd] in Hm.
+  destruct neg; cbn [sign_char sign_str app].
+  - rewrite m2pm_cons_minus, (m2pm_id _ Hm). reflexivity.
+  - rewrite m2pm_cons_other by discriminate. rewrite (m2pm_id _ Hm). reflexivity.
+Qed.
+
+Lemma render_norm lead v neg t rest :
+  (forall nt, In nt ((neg, t) :: rest) -> ~ In c_minus (render_term v (snd nt))) ->
+  minus_to_plusminus (render lead v ((neg, t) :: rest))
+  = (if neg || lead then [c_plus] else []) ++ join c_plus (map (part v) ((neg, t) :: rest)).
+Proof.
+  intros H. cbn [render map join].
+  rewrite !m2pm_app, m2pm_rest by (intros nt K; apply H; right; exact K).
+  pose proof (H (neg, t) (or_introl eq_refl)) as Hm. cbn [snd] in Hm. rewrite (m2pm_id _ Hm).
+  unfold part at 1. cbn [fst snd].
+  destruct neg; [|destruct lead]; cbn [orb app]; reflexivity.
+Qed.
+
+Section Accept.
+  Context {T : Type} {NT : Num T}.
+
+  Lemma no_minus_src v (src : usrc) :
+    wf_src src = true -> (uses_var src = true -> okv v) ->
+    forall nt, In nt src -> wf_term (snd nt) = true /\ (is_var (snd nt) = true -> okv v).
+  Proof.
+    intros Hw Hv nt Hin. split.
+    - unfold wf_src in Hw. rewrite forallb_forall in Hw. exact (Hw nt Hin).
+    - intros K. apply Hv. unfold uses_var. apply existsb_exists. exists nt; auto.
+  Qed.
+
+  (* the parts the parser works on are exactly the signed terms of the source *)
+  Lemma parts_render lead v (src : usrc) :
+    wf_src src = true -> (uses_var src = true -> okv v) ->
+    drop_leading_empty (split_on c_plus (minus_to_plusminus (render lead v src))) = map (part v) src.
+  Proof.
+    intros Hw Hv. pose proof (no_minus_src v src Hw Hv) as Hall.
+    destruct src as [|[neg t] rest]; [reflexivity|].
+    rewrite render_norm.
+    2:{ intros nt K. destruct (Hall nt K) as [H1 H2]. exact (render_term_no_sign v _ c_minus H1 H2 (or_intror eq_refl)). }
+    assert (Hsp : split_on c_plus (join c_plus (map (part v) ((neg, t) :: rest))) = map (part v) ((neg, t) :: rest)).
+    { apply split_join; [discriminate|]. apply Forall_forall. intros p Hp.
+      apply in_map_iff in Hp. destruct Hp as (nt & <- & K). destruct (Hall nt K) as [H1 H2].
+      exact (part_no_plus v nt H1 H2). }
+    destruct (neg || lead) eqn:E.
+    - change ([c_plus] ++ ?x) with ([] ++ c_plus :: x).
+      rewrite split_on_app by (intros []). rewrite Hsp. reflexivity.
+    - cbn [app]. rewrite Hsp. apply orb_false_iff in E. destruct E as [-> _].
+      cbn [map]. change (part v (false, t)) with (render_term v t).
+      destruct (Hall (false, t) (or_introl eq_refl)) as [H1 _]. cbn [snd] in H1.
+      pose proof (render_term_nonempty v t H1) as Hne.
+      destruct (render_term v t); [contradiction|reflexivity].
+  Qed.
+
+  (* the variable the parser finds *)
+  Lemma find_pred_part U v nt : USane U -> wf_term (snd nt) = true ->
+    (is_var (snd nt) = true -> u_alphabetic U v = true) ->
+    find_pred (u_alphabetic U) (part v nt) = if is_var (snd nt) then Some v else None.
+  Proof.
+    intros HU Hw Hv. destruct nt as [neg t]. unfold part. cbn [fst snd] in *.
+    assert (Hdec : forall d, wf_dec d = true -> find_pred (u_alphabetic U) (render_dec d) = None).
+    { intros d Hd. apply find_pred_none. intros x Hx.
+      destruct (render_dec_chars d x Hd Hx) as [K| ->]; [exact (us_digit U HU x K)|exact (us_dot U HU)]. }
+    assert (Hrt : find_pred (u_alphabetic U) (render_term v t) = if is_var t then Some v else None).
+    { destruct t as [d|co e]; cbn [render_term is_var wf_term] in *.
+      - exact (Hdec d Hw).
+      - apply andb_true_iff in Hw. destruct Hw as [Hc _].
+        rewrite find_pred_app.
+        destruct co as [d|]; [rewrite (Hdec d Hc)|]; cbn [app find_pred]; rewrite (Hv eq_refl); reflexivity. }
+    destruct neg; cbn [sign_str app find_pred]; [rewrite (us_minus U HU)|]; exact Hrt.
+  Qed.
+
+  Lemma find_pred_parts U v (src : usrc) : USane U -> wf_src src = true ->
+    (uses_var src = true -> u_alphabetic U v = true) ->
+    find_pred (u_alphabetic U) (flat_map (fun q => c_plus :: q) (map (part v) src))
+    = if uses_var src then Some v else None.
+  Proof.
+    intros HU. induction src as [|nt src IH]; intros Hw Hv; [reflexivity|].
+    cbn [wf_src forallb] in Hw. apply andb_true_iff in Hw. destruct Hw as [Hw1 Hw2].
+    cbn [map flat_map app find_pred]. rewrite (us_plus U HU).
+    cbn [uses_var existsb] in *. rewrite find_pred_app, find_pred_part; [|exact HU|exact Hw1|].
+    - destruct (is_var (snd nt)); [reflexivity|]. cbn [orb] in *. apply IH; assumption.
+    - intros K. apply Hv. rewrite K. reflexivity.
+  Qed.
+
+  Lemma find_var U lead v (src : usrc) : USane U -> wf_src src = true ->
+    (uses_var src = true -> u_alphabetic U v = true) ->
+    find_pred (u_alphabetic U) (minus_to_plusminus (render lead v src)) = if uses_var src then Some v else None.
+  Proof.
+    intros HU Hw Hv.
+    assert (Hok : uses_var src = true -> okv v) by (intros K; exact (usane_okv U v HU (Hv K))).
+    pose proof (no_minus_src v src Hw Hok) as Hall.
+    pose proof (find_pred_parts U v src HU Hw Hv) as HP.
+    destruct src as [|[neg t] rest]; [reflexivity|].
+    rewrite render_norm.
+    2:{ intros nt K. destruct (Hall nt K) as [H1 H2]. exact (render_term_no_sign v _ c_minus H1 H2 (or_intror eq_refl)). }
+    cbn [map flat_map app find_pred] in HP. rewrite (us_plus U HU) in HP.
+    cbn [map join]. destruct (neg || lead); cbn [app find_pred]; [rewrite (us_plus U HU)|]; exact HP.
+  Qed.
+
+  (* ---- decimals ---- *)
+  Lemma parse_unsigned_render d : wf_dec d = true -> parse_unsigned_dec (render_dec d) = Some (@dec_val T NT d).
+  Proof.
+    destruct d as [ip [f|]]; unfold wf_dec, render_dec, dec_val, parse_unsigned_dec; cbn [d_int d_frac]; intros H;
+      apply andb_true_iff in H; destruct H as [Hi H].
+    - apply andb_true_iff in H. destruct H as [Hf Hl].
+      rewrite split_on_app by (exact (all_digits_notin ip c_dot Hi eq_refl)).
+      rewrite split_on_notin by (exact (all_digits_notin f c_dot Hf eq_refl)).
+      rewrite Hi, Hf, Hl. reflexivity.
+    - rewrite app_nil_r. rewrite split_on_notin by (exact (all_digits_notin ip c_dot Hi eq_refl)).
+      rewrite Hi, H. reflexivity.
+  Qed.
+
+  Lemma parse_dec_signed neg d : wf_dec d = true ->
+    parse_dec (sign_str neg ++ render_dec d) = Some (sgn neg (@dec_val T NT d)).
+  Proof.
+    intros Hw. destruct neg; cbn [sign_str app sgn].
+    - replace (parse_dec (c_minus :: render_dec d)) with (option_map nneg (@parse_unsigned_dec T NT (render_dec d))) by reflexivity.
+      rewrite parse_unsigned_render by exact Hw. reflexivity.
+    - destruct (render_dec d) as [|c s'] eqn:E; [exfalso; exact (render_dec_nonempty d Hw E)|].
+      assert (Hc : N.eqb c c_minus = false).
+      { apply N.eqb_neq. intros ->.
+        destruct (render_dec_chars d c_minus Hw) as [K|K]; [rewrite E; left; reflexivity|discriminate|discriminate]. }
+      unfold parse_dec. rewrite Hc, <- E. apply parse_unsigned_render. exact Hw.
+  Qed.
+
+  Lemma parse_dec_plus : @parse_dec T NT [c_plus] = None.
+  Proof. reflexivity. Qed.
+  Lemma parse_dec_minus : @parse_dec T NT [c_minus] = None.
+  Proof. reflexivity. Qed.
+
+  Definition opt_dec_wf (co : option dec) : bool := match co with None => true | Some d => wf_dec d end.
+  Definition opt_dec_str (co : option dec) : str := match co with None => [] | Some d => render_dec d end.
+  Definition opt_dec_val (co : option dec) : T := match co with None => n1 | Some d => dec_val d end.
+
+  Lemma coeff_of_render neg co : opt_dec_wf co = true ->
+    coeff_of (sign_str neg ++ opt_dec_str co) = Ok (sgn neg (opt_dec_val co)).
+  Proof.
+    destruct co as [d|]; cbn [opt_dec_wf opt_dec_str opt_dec_val]; intros Hw.
+    - pose proof (parse_dec_signed neg d Hw) as Hp.
+      destruct (sign_str neg ++ render_dec d) as [|c1 [|c2 r]]; unfold coeff_of.
+      + discriminate.
+      + destruct (N.eqb_spec c1 c_plus) as [->|_]; [rewrite parse_dec_plus in Hp; discriminate|].
+        destruct (N.eqb_spec c1 c_minus) as [->|_]; [rewrite parse_dec_minus in Hp; discriminate|].
+        rewrite Hp. reflexivity.
+      + rewrite Hp. reflexivity.
+    - destruct neg; reflexivity.
+  Qed.
+
+  Lemma after_var_render (c : T) e : match e with None => true | Some ds => wf_exp ds end = true ->
+    after_var c (match e with None => [] | Some ds => c_caret :: ds end) = Ok (c, @term_pow (UVar None e)).
+  Proof.
+    destruct e as [ds|]; intros Hw; [|reflexivity].
+    unfold wf_exp in Hw. apply andb_true_iff in Hw. destruct Hw as [Hw Hle].
+    apply andb_true_iff in Hw. destruct Hw as [Hne Had].
+    unfold after_var. rewrite N.eqb_refl.
+    rewrite parse_nat_text_digits; [|destruct ds; [discriminate|discriminate]|exact Had].
+    rewrite Hle. reflexivity.
+  Qed.
+
+  (* one part is read as the value of its term *)
+  Lemma simple_term_part var v nt : wf_term (snd nt) = true ->
+    (var = Some v /\ okv v) \/ (var = None /\ is_var (snd nt) = false) ->
+    simple_term var (part v nt) = Ok (@term_val T NT nt).
+  Proof.
+    intros Hw Hvar. destruct nt as [neg t]. cbn [snd] in *. rewrite simple_term_eq.
+    destruct t as [d|co e].
+    - (* constant *)
+      assert (Hc : const_of (part v (neg, UConst d)) = Ok (@term_val T NT (neg, UConst d))).
+      { unfold const_of, part. cbn [fst snd render_term]. rewrite parse_dec_signed by exact Hw. reflexivity. }
+      destruct Hvar as [[-> Hok]|[-> _]]; [|exact Hc].
+      rewrite find_char_none; [exact Hc|].
+      intros Hin. unfold part in Hin. cbn [fst snd render_term] in Hin.
+      destruct Hok as (Hd & Hdot & _ & _ & Hm).
+      apply in_app_iff in Hin. destruct Hin as [K|K].
+      + destruct neg; [|destruct K]. destruct K as [K|[]]. apply Hm. symmetry; exact K.
+      + destruct (render_dec_chars d v Hw K) as [K'|K']; [rewrite K' in Hd; discriminate|contradiction].
+    - (* coefficient? variable exponent? *)
+      destruct Hvar as [[-> Hok]|[_ K]]; [|discriminate].
+      cbn [wf_term] in Hw. apply andb_true_iff in Hw. destruct Hw as [Hc He].
+      assert (Hp : part v (neg, UVar co e)
+                   = (sign_str neg ++ opt_dec_str co)
+                     ++ v :: match e with None => [] | Some ds => c_caret :: ds end).
+      { unfold part, opt_dec_str. cbn [fst snd render_term]. rewrite <- !app_assoc. reflexivity. }
+      rewrite Hp.
+      assert (Hnotin : ~ In v (sign_str neg ++ opt_dec_str co)).
+      { destruct Hok as (Hd & Hdot & _ & _ & Hm). intros Hin.
+        apply in_app_iff in Hin. destruct Hin as [K|K].
+        - destruct neg; [|destruct K]. destruct K as [K|[]]. apply Hm. symmetry; exact K.
+        - destruct co as [d|]; [|destruct K]. cbn [opt_dec_str] in K.
+          destruct (render_dec_chars d v Hc K) as [K'|K']; [rewrite K' in Hd; discriminate|contradiction]. }
+      rewrite find_char_app by exact Hnotin.
+      rewrite firstn_len_app, skipn_S_len_app.
+      rewrite coeff_of_render by exact Hc.
+      rewrite after_var_render by exact He.
+      unfold term_val. cbn [fst snd term_coef term_pow]. destruct co; reflexivity.
+  Qed.
+
+  Lemma term_pow_bound (t : uterm) : wf_term t = true -> (Z.of_nat (term_pow t) <= MAX_POWER)%Z.
+  Proof.
+    destruct t as [d|co [ds|]]; cbn [wf_term term_pow]; intros H; try (unfold MAX_POWER; lia).
+    apply andb_true_iff in H. destruct H as [_ H]. unfold wf_exp in H.
+    apply andb_true_iff in H. destruct H as [_ H]. apply Z.leb_le in H. unfold MAX_POWER in *. lia.
+  Qed.
+
+  (* ---- C01: acceptance ---- *)
+  Theorem simple_accept (U : UClass) : USane U ->
+    forall (src : usrc) (v : N) (lead : bool) (s : str),
+    wf_src src = true -> (uses_var src = true -> u_alphabetic U v = true) ->
+    strip_ws s = render lead v src ->
+    parse_simple U s = Ok {| s_coefs := dense_coeffs (@terms_of T NT src);
+                             s_var := if uses_var src then Some v else None |}.
+  Proof.
+    intros HU src v lead s Hw Hv Hs.
+    assert (Hok : uses_var src = true -> okv v) by (intros K; exact (usane_okv U v HU (Hv K))).
+    pose proof (no_minus_src v src Hw Hok) as Hall.
+    unfold parse_simple. cbv zeta. rewrite Hs, parts_render, find_var by assumption.
+    assert (Hbad : existsb bad_part (map (part v) src) = false).
+    { destruct (existsb bad_part (map (part v) src)) eqn:E; [|reflexivity].
+      apply existsb_exists in E. destruct E as (p & Hp & Hb). apply in_map_iff in Hp.
+      destruct Hp as (nt & <- & K). destruct (Hall nt K) as [H1 H2].
+      rewrite (bad_part_part v nt H1 H2) in Hb. discriminate. }
+    rewrite Hbad.
+    rewrite (mapM_map_ok _ (part v) (@term_val T NT) src).
+    2:{ intros nt K. destruct (Hall nt K) as [H1 H2]. apply simple_term_part; [exact H1|].
+        destruct (uses_var src) eqn:E.
+        - left; split; [reflexivity|exact (Hok eq_refl)].
+        - right; split; [reflexivity|]. destruct (is_var (snd nt)) eqn:E2; [|reflexivity].
+          assert (uses_var src = true) by (apply existsb_exists; exists nt; auto). congruence. }
+    fold (@terms_of T NT src).
+    rewrite dense_coeffs_checked_ok; [reflexivity|].
+    intros t Ht. unfold terms_of in Ht. apply in_map_iff in Ht. destruct Ht as (nt & <- & K).
+    unfold term_val. cbn [snd]. apply term_pow_bound. exact (proj1 (Hall nt K)).
+  Qed.
+End Accept.
